@@ -729,8 +729,12 @@ where
         self: &'a mut Pin<&mut Self>,
         cx: &mut Context<'_>,
     ) -> Poll<Option<Result<(), C::Error>>> {
-        while self.channel_pin_mut().poll_ready(cx)?.is_pending() {
+        if self.channel_pin_mut().poll_ready(cx)?.is_pending() {
+            // Flushing may be what makes room in the Channel. If the Channel is still not ready
+            // once the flush completes, poll_ready has registered the waker, so return control to
+            // the executor rather than retrying within this poll.
             ready!(self.channel_pin_mut().poll_flush(cx)?);
+            ready!(self.channel_pin_mut().poll_ready(cx)?);
         }
         Poll::Ready(Some(Ok(())))
     }
